@@ -397,6 +397,36 @@ static int exec_line(const char *line) {
         result(m_mod_src_register_tmr(m, &its, fl, (void *)(intptr_t)idnum(t[4]))); return -1;
     }
     if (!strcmp(t[0], "dereg_tmr") && n == 3) { NEEDH(1, m); m_src_tmr_t its = { CLOCK_MONOTONIC, strtoull(t[2], NULL, 10) }; result(m_mod_src_deregister_tmr(m, &its)); return -1; }
+    /* the other source kinds: registry behaviour and the descriptors the poll plug-in creates for them (they never fire here) */
+    if (!strcmp(t[0], "reg_sgn") && n == 5) {
+        NEEDH(1, m); m_src_sgn_t sg = { (unsigned)atoi(t[2]) };
+        m_src_flags fl = prio_flags(t[3]); if (strchr(t[3], 'o')) fl |= M_SRC_ONESHOT;
+        result(m_mod_src_register_sgn(m, &sg, fl, (void *)(intptr_t)idnum(t[4]))); return -1;
+    }
+    if (!strcmp(t[0], "dereg_sgn") && n == 3) { NEEDH(1, m); m_src_sgn_t sg = { (unsigned)atoi(t[2]) }; result(m_mod_src_deregister_sgn(m, &sg)); return -1; }
+    if ((!strcmp(t[0], "reg_pid") && n == 5) || (!strcmp(t[0], "dereg_pid") && n == 3)) {
+        NEEDH(1, m); int i = atoi(t[2]);
+        m_src_pid_t pd = { i == 1 ? getpid() : i == 2 ? getppid() : i == 3 ? 1 : 0, 0 };
+        if (t[0][0] == 'd') { result(m_mod_src_deregister_pid(m, &pd)); return -1; }
+        m_src_flags fl = prio_flags(t[3]); if (strchr(t[3], 'o')) fl |= M_SRC_ONESHOT;
+        result(m_mod_src_register_pid(m, &pd, fl, (void *)(intptr_t)idnum(t[4]))); return -1;
+    }
+    if ((!strcmp(t[0], "reg_path") && n == 5) || (!strcmp(t[0], "dereg_path") && n == 3)) {
+        NEEDH(1, m); int i = atoi(t[2]);
+        static const char *paths[] = { "", "/tmp", "/", "/proc" };
+        m_src_path_t pt = { paths[i >= 0 && i < 4 ? i : 0], 0x100 /* IN_CREATE */ };
+        if (t[0][0] == 'd') { result(m_mod_src_deregister_path(m, &pt)); return -1; }
+        m_src_flags fl = prio_flags(t[3]); if (strchr(t[3], 'o')) fl |= M_SRC_ONESHOT; if (strchr(t[3], 'd')) fl |= M_SRC_DUP;
+        result(m_mod_src_register_path(m, &pt, fl, (void *)(intptr_t)idnum(t[4]))); return -1;
+    }
+    if ((!strcmp(t[0], "reg_thr") && n == 6) || (!strcmp(t[0], "dereg_thr") && n == 4)) {
+        /* thresholds far out of reach: 10^12 ms of inactivity, 10^9 actions per ms */
+        NEEDH(1, m);
+        m_src_thresh_t th = { (uint64_t)atoi(t[2]) * 1000000000000ULL, (double)atoi(t[3]) * 1e9 };
+        if (t[0][0] == 'd') { result(m_mod_src_deregister_thresh(m, &th)); return -1; }
+        m_src_flags fl = prio_flags(t[4]); if (strchr(t[4], 'o')) fl |= M_SRC_ONESHOT;
+        result(m_mod_src_register_thresh(m, &th, fl, (void *)(intptr_t)idnum(t[5]))); return -1;
+    }
     if (!strcmp(t[0], "srclen") && n == 2) { NEEDH(1, m); result(m_mod_src_len(m, M_SRC_TYPE_END)); return -1; }
     if (!strcmp(t[0], "make_ready") && n == 2) { int k = (int)idnum(t[1]); if (k >= 0 && k < MAXF && FDW[k] >= 0) { char c = 'x'; if (write(FDW[k], &c, 1) < 0) {} } return -1; }
     if (!strcmp(t[0], "drain") && n == 2) { int k = (int)idnum(t[1]); char b[64]; if (k >= 0 && k < MAXF && FDR[k] >= 0) while (read(FDR[k], b, sizeof b) > 0) {} return -1; }
